@@ -279,7 +279,13 @@ def results_event(res, eng, keys, K, chains, included, excluded, store_kernel_st
             if store_kernel_states and ks.is_some():
                 kk = ks.unwrap().get_specific_chain(e).get()
                 if kk.is_some():
-                    rec["nks"] = int(np.asarray(kk.unwrap()[0].cur).shape[1])
+                    k0 = kk.unwrap()[0]
+                    cur0, log0 = np.asarray(k0.cur)[c], np.asarray(k0.log)[c]
+                    rec["nks"] = int(np.asarray(k0.cur).shape[1])
+                    # the last call the stored state of kernel 1 has seen: (kind, epoch, time in epoch)
+                    from .probes import KINDS
+                    rec["ks_last"] = [[KINDS[int(log0[t, cur0[t] - 1, 0])], int(log0[t, cur0[t] - 1, 1]), int(log0[t, cur0[t] - 1, 4])]
+                                      if cur0[t] > 0 else ["none", -1, -1] for t in range(cur0.shape[0])]
             per_chain[c]["epochs"].append(rec)
     # generated quantities: per epoch, per generator, what it saw
     gq = res.generated_quantities
